@@ -447,6 +447,19 @@ def run_replay(rp):
     return {"status": "reproduced" if good else "not-reproduced", "output": out}
 
 
+def cex_recipes(my_items):
+    """which of this property's functions have a counterexample recipe (bin/vcex.py, DESIGN §0.8); the stage runs only after a VIOLATION"""
+    try:
+        import vcex
+    except ImportError:
+        return {"available_for": [], "note": "bin/vcex.py missing"}
+    fns = sorted(set("%s::%s" % (file, fn) for (file, fn) in vcex.RECIPES for _, it in my_items
+                     if it["file"] == file and re.search(r"\b%s\b" % fn, it["selector"])))
+    return {"available_for": fns,
+            "note": "runs only after Verus has decided a VIOLATION: the function is copied verbatim into a dependency-free crate, a loop-free Kani harness "
+                    "over the full domain yields an input, /verif/replay re-executes it on the real crates; any other function's VIOLATION line ends with no-failing-input-found"}
+
+
 def load_known():
     p = os.path.join(VERIF, "known_findings.json")
     if os.path.exists(p):
@@ -748,6 +761,7 @@ def _run_property(prop, tier, seed, replay, t0, udir):
         "known_failing_obligations": [f["obligation"] for f in known_fail],
         "thorough_seed_stability": stability,
         "thorough_detection_selftest": selftest,
+        "counterexample_stage": cex_recipes(my_items),
     }
     ev["coverage"] = cov
     ev["assumptions"] = cfg.get("assumptions", []) + ["every item listed in coverage.trusted_base (mechanical scan of the generated unit)",
